@@ -36,6 +36,8 @@ CORPORA = {
                  family="conc", trace="StreamTrace.tla", tracecfg="StreamTrace.cfg"),
     "flow": dict(gen="MCFlowGen.tla", cfg={"quick": "flowgen_quick.cfg", "thorough": "flowgen_thorough.cfg"},
                  family="flow", trace="FlowTrace.tla", tracecfg="FlowTrace.cfg"),
+    "limits": dict(gen="MCLimits.tla", cfg={"quick": "limits_quick.cfg", "thorough": "limits_thorough.cfg"},
+                   family="limits", trace="LimitsTrace.tla", tracecfg="LimitsTrace.cfg", harness_workers=1),
     "stream_headers": dict(gen="MCStream.tla", cfg={"quick": "stream_headers_quick.cfg", "thorough": "stream_headers_thorough.cfg"},
                            family="stream", trace="StreamTrace.tla", tracecfg="StreamTrace.cfg"),
 }
@@ -54,6 +56,7 @@ PROPS = {
     "C08": dict(corpora=["stream_chunks"], prefix="C08.",
                 design=[("MCFraming.tla", "framing_%s_fixed.cfg" % p) for p in ("R1", "R2", "R3", "R4", "R5", "R5e")]),
     "C09": dict(corpora=["stream_faults"], prefix="C09."),
+    "C10": dict(corpora=["limits"], prefix="C10."),
     "C11": dict(corpora=["stream_hostile", "stream_faults", "stream_errors", "stream_reject"], prefix="C11."),
     "C12": dict(corpora=["timeout"], prefix="C12."),
     "C13": dict(corpora=["stream_matrix", "stream_reject"], prefix="C13."),
@@ -126,7 +129,7 @@ def run_corpus(name, tier, seed, work, binary):
     vlib.write_ndjson(scn_file, scns)
     log("[%s] E3: replaying %d scenarios" % (name, len(scns)))
     t1 = time.time()
-    vlib.run_harness(binary, c["family"], scn_file, trace_file, seed)
+    vlib.run_harness(binary, c["family"], scn_file, trace_file, seed, workers=c.get("harness_workers"))
     log("[%s] E3 done in %.1fs; E4: trace validation" % (name, time.time() - t1))
     ntrace = sum(1 for _ in open(trace_file))
     nsh = c.get("shards", 1)
